@@ -41,6 +41,7 @@ def op_strategy(ops=None, value=None, max_target=40):
       'src': st.one_of(st.none(), st.none(), st.integers(0, max_target)),
       'sv': st.booleans(),
       'own': st.sampled_from([False, False, False, False, False, True]),
+      'mv': st.sampled_from([False] * 9 + [True]),
       'nf': st.sampled_from([False, False, False, True]),
       'm': st.integers(0, 5),
       'locs': st.lists(st.fixed_dictionaries({
@@ -189,6 +190,12 @@ def apply_op(roots, op, allow_move=True, direct_inplace=False, prebuilt=None, bu
     if isinstance(cand, pg.Symbolic):
       val, i = cand, idx
       out.used_src = True
+  if _get(op, 'mv') and name in ('setitem', 'setslice', 'insert', 'extend', 'iadd', 'dsetitem', 'dsetattr', 'osetattr',
+                                 'update', 'ior', 'setdefault', 'rebind_o'):
+    # writing MISSING_VALUE is the accessor form of "delete / reset to default"
+    val = pg.MISSING_VALUE if name not in ('setslice', 'extend', 'iadd') else [1, pg.MISSING_VALUE, 2]
+    src = None
+    out.used_src = True      # (no fresh value is built)
   sv_flag = bool(_get(op, 'sv'))
   _b = builder if builder is not None else (lambda x: values.build(x, symbolic=sv_flag))
   # rebind(..., skip_notification=True) when the op asks for it
